@@ -298,7 +298,12 @@ pub fn run(cfg: &RunCfg, rep: &mut Report) {
                             None => TaprootAvailableLeaves::Any,
                             Some(l) if l.is_empty() => TaprootAvailableLeaves::None,
                             Some(l) if l.len() == 1 => TaprootAvailableLeaves::Single(*l.iter().next().unwrap()),
-                            Some(l) => TaprootAvailableLeaves::Many(l.iter().cloned().collect()),
+                            Some(l) => {
+                                // the list is the caller's: any order
+                                let mut v: Vec<TapLeafHash> = l.iter().cloned().collect();
+                                rng.shuffle(&mut v);
+                                TaprootAvailableLeaves::Many(v)
+                            }
                         },
                         sighash_default,
                     },
